@@ -21,7 +21,8 @@ RULE = ("post-conditions on the real Quantity operators over the table operator 
         "degree; incommensurable pairs are built by changing one dimension exponent; distinct = (operator, left type, "
         "right kind, shape classes, exponent); non-trivial = operands are not both bare base units with magnitude 1"
         " Incommensurable cases include NaN, sNaN and infinite magnitudes."
-        " Incommensurable operands also meet in level() and in orderings against levels.")
+        " Incommensurable operands also meet in level() and in orderings against levels."
+        " Int magnitudes beyond the str() digit limit and bool magnitudes meet Decimal operands (four operators, both orders): a Decimal result of the right dimension.")
 ASSUMPTIONS = [
     "expected dimensions come from the normal-form model over dimensions captured at Unit.define",
     "int ** negative legitimately gives float; roots of negative magnitudes are outside the statement (skipped, counted)",
